@@ -348,7 +348,7 @@ impl Property for C15 {
     const RULE: &'static str = "random op histories of 0..40 operations over one world containing a settable whose impl_set fails on demand and records what it receives, a ConstantGetter, two scripted getters, a scripted clock that can err, a TimeGetterFromGetter, and a GetterFromHistory (each of the four constructors) over a history that returns the queried time as its value stamped with garbage, absent at multiples of 7: ops = set succeeding/failing, follow, stop_following, update, change of a followed getter's output (present/absent/error), clock advance, clock error on/off, set_delta, set_time, adapter update; i64 clock values and offsets within +-2^61. Oracle after every op: last request, exact sequence of forwarded values, update return values, ConstantGetter value/time, adapter value = history(now+offset) restamped now with the documented offset per constructor/set_delta/set_time (unchanged when the clock errs), time getter = getter timestamp / FromNone / error. Non-trivial = a failed set after a successful one, a re-follow, or a set_time after the clock moved; distinct = (constructor, op kind sequence).";
     type Scenario = Scenario;
     fn strategy(_tier: Tier) -> BoxedStrategy<Scenario> {
-        (0u8..4, big(), big(), proptest::bool::weighted(0.1), proptest::collection::vec(op(), 0..=40)).prop_map(|(ctor, ctor_arg, clock0, clock_err0, ops)| Scenario { ctor, ctor_arg, clock0, clock_err0, ops }).boxed()
+        (0u8..4, big(), big(), proptest::bool::weighted(0.1), gen::with_runs(proptest::collection::vec(op(), 0..=40).boxed(), 38, 40)).prop_map(|(ctor, ctor_arg, clock0, clock_err0, ops)| Scenario { ctor, ctor_arg, clock0, clock_err0, ops }).boxed()
     }
     fn cases(tier: Tier) -> u32 {
         tier.pick(50_000, 250_000)
